@@ -24,8 +24,9 @@ def run(tier):
                "1, -1.5, true, false, null, -7 where types are inferred) and 2x2 (reduced cell alphabet) x 288 option sets (field delimiter "
                ", ; TAB |; quote char \" '; quote escape = quote or backslash; line delimiter LF / CRLF; quote style all / nonnumeric with "
                "type inference on, minimal with inference off; mapping n_rows / n_objects / m_columns): decode_csv(encode_csv(t,o),o) == t, "
-               "and every field containing a delimiter, quote or line break is quoted in the text. TOON: all trees with <= 3 (thorough 4) "
-               "nodes over 9 keys (incl. empty, spaces, ':' ',' '[' '-' digits) and 26 leaves (number-like, literal-like and control-"
+               "and every field containing a delimiter, quote or line break is quoted in the text; for the two header mappings also every pair of "
+               "distinct column names over the same string alphabet. TOON: all trees with <= 3 (thorough 4) "
+               "nodes over 9 keys (incl. empty, spaces, ':' ',' '[' '-' digits) and 45 leaves (fractions below 1, tiny and huge doubles, number-like, date-like, literal-like and control-"
                "character strings), plus deeper trees over a small alphabet, x indent {2,4} x delimiter {comma,tab,pipe} x length marker: "
                "decode_toon(encode_toon(v)) == v. non-trivial = round trips that held.")
     ck.assumptions = ["a one-column row holding an unquoted empty string is an empty line (inherent CSV ambiguity): abstained under minimal quoting",
